@@ -165,6 +165,21 @@ func runC17(tier string, seed uint64) {
 			put(s)
 			put(s)
 		}
+		// a bucket that was deleted is not listed, whatever arrives for it afterwards: a multipart upload
+		// started in it and completed after the bucket is gone, an upload and a copy into it
+		{
+			gone := "zzz-gone"
+			do(h, Req{Method: "PUT", Path: "/" + gone})
+			ir := do(h, Req{Method: "POST", Path: "/" + gone + "/obj?uploads", Body: []byte{}})
+			if ids := xmlAll(string(ir.Body), "UploadId"); len(ids) == 1 {
+				pr := do(h, Req{Method: "PUT", Path: "/" + gone + "/obj?uploadId=" + ids[0] + "&partNumber=1", Body: []byte("part")})
+				do(h, Req{Method: "DELETE", Path: "/" + gone})
+				do(h, Req{Method: "POST", Path: "/" + gone + "/obj?uploadId=" + ids[0], Body: []byte("<CompleteMultipartUpload><Part><PartNumber>1</PartNumber><ETag>" + pr.Header.Get("ETag") + "</ETag></Part></CompleteMultipartUpload>")})
+			}
+			do(h, Req{Method: "PUT", Path: "/" + gone + "/late", Body: []byte("x")})
+			do(h, Req{Method: "PUT", Path: "/" + gone + "/copied", Body: []byte{}, Header: [][2]string{{"X-Amz-Copy-Source", "/abc/nothing"}}})
+			stat("deleted-bucket-addressed-" + kind)
+		}
 		list()
 		st.Close()
 	}
